@@ -971,6 +971,21 @@ def rule_e16(ctx):
                                   body.term(w[-2])["sp"] if len(w) > 1 and body.term(w[-2]) else f["sp"], witness=["bb%d" % x for x in w[-8:]]))
               else:
                   res.ok({"construct": label, "operand": kid[1], "verdict": "lowered on every path"})
+    # a call lowers the body of the called function on every path (its assignments are local, but its failing operations are not:
+    # a memo of call results keyed by argument wires would skip the body - and with it the panic conditions - of a repeated call)
+    f = C02.fn_of(ctx, C02.EXPR_COMPILE)
+    body = ctx.body(f["id"])
+    succ = body.pruned_succ({C02.INNER: "FnCall"})
+    region = set(body.reachable([0], succ=succ))
+    via = {b for b in region if body.term(b) and body.term(b)["k"] == "call" and mir.last_seg(mir.callee(body.term(b)) or "") == "compile_block"
+           and not any(r == C02.SELF1 for (r, p) in body.trace_operand(body.term(b)["args"][0]))}
+    w = body.path(0, body.returns(), blocked=via, succ=lambda x: [y for y in succ(x) if not body.blocks[y]["cleanup"]]) if via else [0]
+    if w:
+        res.bad(Finding("E16", f["id"], "FnCall: the body of the called function is not lowered on some path",
+                        "a path through the FnCall arm returns without lowering the callee's body: its failing operations are not recorded for this call "
+                        "(a call repeated after one in untaken code silently returns a value instead of panicking)", body.term(w[-2])["sp"] if len(w) > 1 and body.term(w[-2]) else f["sp"]))
+    else:
+        res.ok({"construct": "FnCall", "operand": "callee body", "verdict": "lowered on every path"})
     return res
 
 
